@@ -35,6 +35,9 @@ pub enum Attack {
     CrossUser,
     /// 2022 single-key server: client sends an identity header anyway (under some other iPSK)
     UnexpectedIdentityHeader,
+    /// 2022 multi-user: right server key on the outer layer, identity header naming no registered user (0: the server key's
+    /// own hash, 1: an unregistered key), body sealed under the *server* key
+    UnknownUserBodyUnderServerKey(u8),
     /// VMess: auth-id / header under an unregistered UUID
     VmessUnregistered(u64),
     /// VMess: auth-id under registered user u, header sealed under registered user v
@@ -65,6 +68,7 @@ fn attack_strategy() -> BoxedStrategy<Attack> {
         1 => Just(Attack::WrongServerKey),
         1 => Just(Attack::NoIdentityHeader),
         1 => Just(Attack::CrossUser),
+        1 => (0u8..2).prop_map(Attack::UnknownUserBodyUnderServerKey),
         1 => Just(Attack::UnexpectedIdentityHeader),
         1 => any::<u64>().prop_map(Attack::VmessUnregistered),
         1 => Just(Attack::VmessCrossUser),
@@ -79,7 +83,7 @@ pub fn auth_strategy() -> BoxedStrategy<AuthCase> {
             // protocol-specific attacks get a compatible configuration (constructed, not filtered)
             let aes = if seed % 2 == 0 { ss2022::C22::Aes128 } else { ss2022::C22::Aes256 };
             let (cred, user) = match &attack {
-                Attack::UnknownUser | Attack::WrongServerKey | Attack::NoIdentityHeader | Attack::CrossUser => {
+                Attack::UnknownUser | Attack::WrongServerKey | Attack::NoIdentityHeader | Attack::CrossUser | Attack::UnknownUserBodyUnderServerKey(_) => {
                     let n = 2 + (seed % 5) as usize;
                     (gen::make_cred(Proto::Ss22(aes), "", seed, n, user), user % n)
                 }
@@ -211,6 +215,18 @@ fn build_attack(c: &AuthCase, d: &mut Det) -> Option<(Vec<u8>, &'static str)> {
             wire[cc.key_len()..cc.key_len() + 16].copy_from_slice(&eih_u);
             Some((wire, "identity-of-u-body-under-v"))
         }
+        Attack::UnknownUserBodyUnderServerKey(v) => {
+            let Proto::Ss22(cc) = c.cred.proto else { return None };
+            if c.cred.users.is_empty() || !cc.is_aes() {
+                return None;
+            }
+            let named = if *v == 0 { keys.server_psk.clone() } else { d.bytes(cc.key_len()) };
+            let req = ss2022::TcpRequest { salt: d.bytes(cc.key_len()), ts: T0, typ: 0, addr: c.addr.clone(), padding: d.bytes(3), first: payload[0].clone(), chunks: vec![] };
+            let mut wire = ss2022::encode_tcp_request(cc, &keys.server_psk, &[keys.server_psk.clone()], &req);
+            let eih = ss2022::tcp_eih(&[keys.server_psk.clone()], &named, &req.salt, cc.key_len());
+            wire[cc.key_len()..cc.key_len() + 16].copy_from_slice(&eih);
+            Some((wire, "unregistered-identity-body-under-server-key"))
+        }
         Attack::UnexpectedIdentityHeader => {
             let Proto::Ss22(cc) = c.cred.proto else { return None };
             if !c.cred.users.is_empty() || !cc.is_aes() {
@@ -323,6 +339,7 @@ fn exec_udp(c: &AuthCase, d: &mut Det) -> Outcome {
         (Proto::Ss22(cc), atk) => {
             let mut upsk = keys.client_upsk.clone();
             let mut ipsks = if cc.is_aes() { keys.client_ipsks.clone() } else { vec![] };
+            let mut splice_named: Option<Vec<u8>> = None;
             let kind = match atk {
                 Attack::OneBitKey(i) => {
                     if !ipsks.is_empty() && i % 2 == 1 {
@@ -352,10 +369,36 @@ fn exec_udp(c: &AuthCase, d: &mut Det) -> Outcome {
                     ipsks.clear();
                     "server-key-without-identity"
                 }
+                Attack::CrossUser if !ipsks.is_empty() && keys.user_psks.len() >= 2 => {
+                    // body under v's key; the identity header is replaced below by one naming u
+                    let u = c.user % keys.user_psks.len();
+                    let v = (u + 1) % keys.user_psks.len();
+                    upsk = keys.user_psks[v].clone();
+                    splice_named = Some(keys.user_psks[u].clone());
+                    "identity-of-u-body-under-v"
+                }
+                Attack::UnknownUserBodyUnderServerKey(v) if !ipsks.is_empty() => {
+                    upsk = keys.server_psk.clone();
+                    splice_named = Some(if *v == 0 { keys.server_psk.clone() } else { d.bytes(cc.key_len()) });
+                    "unregistered-identity-body-under-server-key"
+                }
                 _ => return out,
             };
             let pkt = UdpClientPacket { sid: d.u64(), pid: 0, typ: 0, ts: T0, padding: d.bytes(2), addr: c.addr.clone(), payload: payload.clone(), xnonce: d.bytes(24) };
-            (ss2022::encode_udp_client(cc, &upsk, &ipsks, &pkt), kind)
+            let mut w = ss2022::encode_udp_client(cc, &upsk, &ipsks, &pkt);
+            if let Some(named) = splice_named {
+                // identity header = AES-ECB_{iPSK}(BLAKE3(named key)[..16] xor (session id || packet id))
+                let mut block = ss2022::psk_hash(&named);
+                let mut header = [0u8; 16];
+                header[..8].copy_from_slice(&pkt.sid.to_be_bytes());
+                header[8..].copy_from_slice(&pkt.pid.to_be_bytes());
+                for (b, h) in block.iter_mut().zip(header.iter()) {
+                    *b ^= h;
+                }
+                crate::refimpl::aes_ecb_encrypt_block(&ipsks[0], &mut block);
+                w[16..32].copy_from_slice(&block);
+            }
+            (w, kind)
         }
         _ => return out,
     };
@@ -501,7 +544,7 @@ pub fn run(ctx: &mut PropCtx) {
         .into();
     ctx.assumptions = vec!["a panic or error on such input is acceptable for this property (C07 reports panics)".into()];
     let t = ctx.tier;
-    rt::run_sub(ctx, &NoCredential, t.pick(60_000, 2_000_000));
-    rt::run_sub(ctx, &UserSeparation, t.pick(8_000, 200_000));
+    rt::run_sub(ctx, &NoCredential, t.pick(400_000, 4_000_000));
+    rt::run_sub(ctx, &UserSeparation, t.pick(40_000, 400_000));
     crate::props::c06_sys::run(ctx);
 }
